@@ -8,7 +8,7 @@ REFINE = CORE + ["HeapFacts", "Refine1", "Refine2", "Refine3", "Refine4"]
 PROPS = {
  "C02": dict(needs=REFINE + ["FuelMono", "LinkStack", "Scope", "RunG", "SeqProofs", "CallRules"], gen=["GenStack"], slices=[("slices_core", "core_programs"), ("slices_core", "small_core"), ("slices_values", "c02_callables"), ("slices_core", "spec_vs_machine")]),
  "C03": dict(needs=REFINE + ["RelA", "RelB", "RelC", "RunG", "ShortCircuit"], gen=[], slices=[("slices_lazy", "c03_bombs"), ("slices_core", "core_programs")]),
- "C05": dict(needs=REFINE + ["LinkStack", "Progress"], gen=["GenStack"], slices=[("slices_faults", "c05_ladders"), ("slices_core", "core_programs")]),
+ "C05": dict(needs=REFINE + ["LinkStack", "Progress", "RunG", "FuelMono", "Float", "Arith", "Loops", "Loops2"], gen=["GenStack"], slices=[("slices_faults", "c05_ladders"), ("slices_core", "core_programs")]),
  "C07": dict(needs=REFINE + ["RunG", "Pure", "Eq", "Deep", "IOSpec", "MonadLaws"], gen=[], slices=[("slices_core", "io_trees")]),
  "C10": dict(needs=REFINE + ["RunG", "Exc", "Deep", "LinkErr"], gen=["GenErr"], slices=[("slices_lazy", "c10_faults"), ("slices_lazy", "c10_import_faults"), ("slices_core", "core_programs")]),
  "C11": dict(needs=CORE + ["Float", "Arith", "LinkArith"], gen=["GenArith"], slices=[("slices_core", "int_kernels"), ("slices_values", "c11_tower")]),
